@@ -17,7 +17,7 @@ import (
 // wall-clock read, sync.Map or math/rand in non-test code.
 func TestNoHiddenNondeterminismInSimrt(t *testing.T) {
 	fset := token.NewFileSet()
-	names := []string{"chan.go", "chooser.go", "mapkeys.go", "sched.go", "sync.go", "timer.go", "vc.go"}
+	names := []string{"chan.go", "chooser.go", "mapkeys.go", "sched.go", "sync.go", "timer.go", "vc.go", "atomic.go", "ctxmap.go", "lock.go"}
 	var files []*ast.File
 	for _, n := range names {
 		f, err := parser.ParseFile(fset, n, nil, 0)
